@@ -94,7 +94,7 @@ class Result(object):
 # -- configuration -----------------------------------------------------------------
 
 
-def gen_cfg(rng, prop, tier):
+def gen_cfg(rng, prop, tier, allow_big=True):
     """Swarm-style per-run configuration (plain data)."""
     thorough = tier == "thorough"
     if prop == "C20":
@@ -111,8 +111,8 @@ def gen_cfg(rng, prop, tier):
         length = rng.randint(13, 40)
     else:
         length = rng.randint(1, 12)
-    big = prop in ("C01", "C02", "C03", "C04", "C16") and rng.random() < (0.02 if thorough else 0.01)
-    deep = prop in ("C01", "C02", "C03") and rng.random() < (0.001 if thorough else 0.0005)
+    big = allow_big and prop in ("C01", "C02", "C03", "C04", "C16") and rng.random() < (0.02 if thorough else 0.01)
+    deep = allow_big and prop in ("C01", "C02", "C03") and rng.random() < (0.001 if thorough else 0.0005)
     if big:
         # a few large universes: wide stars, deep chains, big random forests
         n_nodes = rng.randint(40, 150 if prop == "C04" else 300)
